@@ -510,23 +510,32 @@ func runCell(c *Cell) []result {
 			callText := "f(7, " + srcText + ", \"tail\")"
 			hold := &Holder{F: fn.Interface(), In: &HolderIn{}}
 			curFn = fn
+			vh := VHolder{Tag: 5}
+			ph := &VHolder{Tag: 6}
 			switch c.Path {
+			case "vthenp":
+				callText = "ph.Call" + c.Kind + "(7, " + srcText + ", \"tail\")"
 			case "method":
 				callText = "hold.Call" + c.Kind + "(7, " + srcText + ", \"tail\")"
 			case "three":
 				callText = "hold.In.Call" + c.Kind + "(7, " + srcText + ", \"tail\")"
 			}
-			if (c.Path == "method" || c.Path == "three") && !reflect.ValueOf(hold).MethodByName("Call"+c.Kind).IsValid() {
+			if (c.Path == "method" || c.Path == "three" || c.Path == "vthenp") && !reflect.ValueOf(hold).MethodByName("Call"+c.Kind).IsValid() {
 				out = append(out, result{Ev: "case", OK: true, Skipped: "methods exist for int8 int64 uint16 uint64 float32 float64 string bool"})
 				continue
 			}
 			before := w.snap()
 			text := fmt.Sprintf("rule \"r\" begin\n  return %s\nend\n", callText)
+			if c.Path == "vthenp" {
+				text = fmt.Sprintf("rule \"r\" begin\n  first = vh.Call%s(7, %s, \"tail\")\n  return %s\nend\n", c.Kind, srcText, callText)
+			}
 			gotArgs = nil
 			res, err, pv := exec(text, func(dc *context.DataContext) {
 				setup(dc)
 				dc.Add("f", fn.Interface())
 				dc.Add("hold", hold)
+				dc.Add("vh", vh)
+				dc.Add("ph", ph)
 			})
 			after := w.snap()
 			if got == nil && gotArgs != nil {
@@ -559,6 +568,10 @@ func runCell(c *Cell) []result {
 			}
 			if !okv {
 				fail("wrong-argument", fmt.Sprintf("callee received %#v for %#v", got[1].Interface(), srcVal.Interface()), text)
+				continue
+			}
+			if c.Path == "vthenp" && (ph.Tag != 6 || vh.Tag != 5) {
+				fail("wrong-method", fmt.Sprintf("the receivers changed: vh.Tag=%d ph.Tag=%d", vh.Tag, ph.Tag), text)
 				continue
 			}
 			if rv, ok := res["r"]; !ok || !reflect.DeepEqual(rv, got[1].Interface()) {
@@ -727,6 +740,26 @@ func (h *HolderIn) Callfloat64(a int64, x float64, s string) float64 {
 }
 func (h *HolderIn) Callstring(a int64, x string, s string) string { return rec(a, x, s).(string) }
 func (h *HolderIn) Callbool(a int64, x bool, s string) bool       { return rec(a, x, s).(bool) }
+
+// VHolder: value-receiver Call* methods plus pointer-receiver methods that sort before and after them, so that the
+// method sets of VHolder and *VHolder number their methods differently
+type VHolder struct{ Tag int64 }
+
+func (h *VHolder) Aaa()                                          { h.Tag = -1 }
+func (h *VHolder) Zzz()                                          { h.Tag = -2 }
+func (h *VHolder) Cblip()                                        { h.Tag = -3 }
+func (h VHolder) Callint8(a int64, x int8, s string) int8        { return rec(a, x, s).(int8) }
+func (h VHolder) Callint64(a int64, x int64, s string) int64     { return rec(a, x, s).(int64) }
+func (h VHolder) Calluint16(a int64, x uint16, s string) uint16  { return rec(a, x, s).(uint16) }
+func (h VHolder) Calluint64(a int64, x uint64, s string) uint64  { return rec(a, x, s).(uint64) }
+func (h VHolder) Callfloat32(a int64, x float32, s string) float32 {
+	return rec(a, x, s).(float32)
+}
+func (h VHolder) Callfloat64(a int64, x float64, s string) float64 {
+	return rec(a, x, s).(float64)
+}
+func (h VHolder) Callstring(a int64, x string, s string) string { return rec(a, x, s).(string) }
+func (h VHolder) Callbool(a int64, x bool, s string) bool       { return rec(a, x, s).(bool) }
 
 func min(a, b int) int {
 	if a < b {
